@@ -38,7 +38,7 @@ func successReturns(fn *ssa.Function) []*ssa.Return {
 		res := eng.ReturnResults(ret)
 		if n := len(res); n > 0 {
 			last := res[n-1]
-			if types.Identical(last.Type(), types.Universe.Lookup("error").Type()) && !eng.IsNilConst(last) {
+			if types.Identical(last.Type(), types.Universe.Lookup("error").Type()) && !eng.IsNilConst(last) && !eng.KnownNil(last, ret.Block()) {
 				return
 			}
 		}
